@@ -161,7 +161,7 @@ def gen_cases(rng, tier):
 def run(rep, tier, rng, replay=None):
     ok = core.proof_step(rep, "C14", thorough=(tier == "thorough"))
     rep.cov["trusted_base"] = core.TRUSTED_COMMON + [
-        "the XML text of every finalize is taken from the implementation's device image and given to the model as the value of gen_xml (XML generation: C04)",
+        "Rust's Display for f64/f32 is an oracle (harness FDISPLAY, checked to be plain text that parses back); the model generates the whole file itself (XmlGen.gen_root), the XML bytes are borrowed from the implementation only for sequences with a float text missing from the table (counted: xml_borrowed_fallback)",
         "bounds and limits are observed through E57Reader after the XML round trip (Rust's float Display / FromStr: exact for finite values, NaN payloads canonicalised)",
         "expected minima / maxima are computed with Python floats (IEEE-754 doubles; int -> float conversion rounds to nearest even; multiply then add, no fused operation)",
         "Flocq 4.1.0 as the definition of IEEE-754 arithmetic in the model (Base/Floats.v)"]
@@ -171,7 +171,8 @@ def run(rep, tier, rng, replay=None):
         cases = [("replay", wapi.calls_of_tokens(replay["calls"]))]
     else:
         cases = gen_cases(rng, tier)
-    outs = wapi.run_all([c for _, c in cases])
+    tie_stats = {}
+    outs = wapi.run_all([c for _, c in cases], tie_stats)
     rep.count(len(cases))
     n_dir = n_corr = 0
     fams, types_seen, npoints = {}, set(), 0
@@ -201,6 +202,10 @@ def run(rep, tier, rng, replay=None):
             rep.violation("correspondence-c14", "%s [%s]" % (diff, label),
                           dict(kind="wapi-calls", calls=toks, label=label, failing="correspondence writer API model vs implementation (bounds, limits)",
                                impl=o["impl"].split(" | xml=")[0][:1500], model=o["model"][:1500]), no_input=True)
+    fd_bad = tie_stats.pop("_fd_bad", [])
+    if fd_bad:
+        rep.violation("float-oracle", "Rust's Display/parse of a float does not satisfy the oracle hypotheses: %r" % (fd_bad[:2],), dict(kind="float-oracle", bad=[list(x) for x in fd_bad]), no_input=True)
+    rep.cov.update(tie_stats)
     rep.cov.update(sequences=len(cases), point_patterns=fams, attribute_type_pairs=len(types_seen), points_added=npoints,
                    direct_failures=n_dir, correspondence_failures=n_corr, traces_validated_against_impl=len(cases))
     mid = len(cases) // 2
